@@ -6,6 +6,7 @@
   entries, iterators or operations.
 -/
 import GojaModel.C18.LemmasH
+import GojaModel.C18.Values
 
 namespace GojaModel.C18
 section
@@ -80,6 +81,83 @@ theorem reachable_inv (hnorm : ∀ k, norm (norm k) = norm k) (ops : List (Op K 
   (run_refines norm hash hnorm ops {} {} (Sim.init norm hash)).2.inv
 
 end
+
+/-! ### Value level: goja's per-type hash / SameAs (number model of C05, string model of C06) vs SameValueZero -/
+
+/-- SameValueZero-equal keys feed the same thing to the hasher after the −0 normalisation of `lookup`:
+`1` and a float-computed `1`, `+0`/`−0`, every NaN, ASCII / UTF-16 / imported (scanned or not) strings with the same
+code units.  Numbers must be canonical (C05 `Canon`), strings in normal form (C06 `NF`). -/
+theorem hash_respects_svz {a b : Key} (ha : a.WF) (hb : b.WF) (h : svz a b = true) :
+    hashPreK (normKeyK a) = hashPreK (normKeyK b) := hash_respects_svz' ha hb h
+
+/-- … hence the same bucket, whatever function maphash computes and wherever objects live. -/
+theorem hash_respects_svz_any_hasher (mh : List UInt8 → Nat) (ph : Nat → Nat) {a b : Key} (ha : a.WF) (hb : b.WF)
+    (h : svz a b = true) : hashK mh ph (normKeyK a) = hashK mh ph (normKeyK b) := by
+  unfold hashK; rw [hash_respects_svz' ha hb h]
+
+/-- The `SameAs` test of the bucket walk, applied to normalised keys, is SameValueZero. -/
+theorem sameAs_norm_eq_svz {a b : Key} (ha : a.WF) (hb : b.WF) :
+    sameAsK (normKeyK a) (normKeyK b) = svz a b := sameAs_norm_eq_svz' ha hb
+
+/-- The whole decision of `lookup` for a stored key `a` and a probe `b` (same bucket ∧ SameAs) is SameValueZero. -/
+theorem lookup_decision_eq_svz (mh : List UInt8 → Nat) (ph : Nat → Nat) {a b : Key} (ha : a.WF) (hb : b.WF) :
+    (hashK mh ph (normKeyK a) == hashK mh ph (normKeyK b) && sameAsK (normKeyK a) (normKeyK b)) = svz a b := by
+  rw [sameAs_norm_eq_svz' ha hb]
+  cases h : svz a b with
+  | false => simp
+  | true => simp [hash_respects_svz_any_hasher mh ph ha hb h]
+
+/-- −0 is normalised to integer +0 at the door, no stored numeric key is a zero float, and SameValueZero-equal
+canonical numbers are stored as the very same representation (so it does not matter which one arrived first). -/
+theorem neg_zero_normalised :
+    normKeyK (.num (.flt F64.negZero)) = .num (.int 0) ∧
+    (∀ a f, normKeyK a = .num (.flt f) → f.isZero = false) ∧
+    (∀ a b, Num.Canon a → Num.Canon b → Num.specSameValueZero a.toF64 b.toF64 = true →
+        normKeyK (.num a) = normKeyK (.num b)) := by
+  refine ⟨by simp [normKeyK, Num.normKey, F64.negZero, F64.mk', F64.isZero], ?_, ?_⟩
+  · intro a f h
+    cases a with
+    | num x =>
+      cases x with
+      | int i => simp [normKeyK, Num.normKey] at h
+      | flt g =>
+        simp only [normKeyK, Num.normKey] at h
+        by_cases hz : g.isZero = true
+        · simp [hz] at h
+        · simp [hz] at h; subst h; simpa using hz
+    | str s => simp [normKeyK] at h
+    | other i => simp [normKeyK] at h
+  · intro a b ha hb h
+    simp only [normKeyK]
+    rw [(normKey_eq_iff_svz ha hb).2 h]
+
+/-- Keys are SameValueZero-equal exactly when they are in the same class. -/
+theorem cls_eq_iff_svz {a b : Key} (ha : a.WF) (hb : b.WF) : cls a = cls b ↔ svz a b = true :=
+  cls_eq_iff_svz' ha hb
+
+/-- Instantiation of the abstract parameters: there is a hash on SameValueZero classes such that the concrete bucket
+choice factors through it and the concrete `SameAs` test is equality of classes — i.e. the concrete `lookup` takes the
+decisions of the abstract mechanism model at `K := KeyClass`, `norm := id` — and that instance refines the [[MapData]]
+spec for every history. -/
+theorem value_level_refines (mh : List UInt8 → Nat) (ph : Nat → Nat) (V : Type) :
+    ∃ hashC : KeyClass → Nat,
+      (∀ a, a.WF → hashK mh ph (normKeyK a) = hashC (cls a)) ∧
+      (∀ a b, a.WF → b.WF → sameAsK (normKeyK a) (normKeyK b) = decide (cls a = cls b)) ∧
+      (∀ ops : List (Op KeyClass V),
+        (Sys.run id hashC ({} : Sys KeyClass V) ops).2 = (SpecSys.run id ({} : SpecSys KeyClass V) ops).2) := by
+  classical
+  refine ⟨fun c => if h : ∃ a : Key, a.WF ∧ cls a = c then hashK mh ph (normKeyK (Classical.choose h)) else 0,
+    ?_, ?_, ?_⟩
+  · intro a ha
+    have hex : ∃ a' : Key, a'.WF ∧ cls a' = cls a := ⟨a, ha, rfl⟩
+    simp only [hex, dite_true]
+    obtain ⟨h1, h2⟩ := Classical.choose_spec hex
+    exact hash_respects_svz_any_hasher mh ph ha h1 ((cls_eq_iff_svz' ha h1).1 h2.symm)
+  · intro a b ha hb
+    rw [sameAs_norm_eq_svz' ha hb]
+    exact Bool.eq_iff_iff.2 (by simpa using (cls_eq_iff_svz' ha hb).symm)
+  · intro ops
+    exact history_refines id _ (fun _ => rfl) ops
 
 /-! Tests on literals (not proofs of the property): hypotheses are satisfiable by a non-trivial state. -/
 example : Inv (K := Nat) (V := Nat) id (fun k => k % 2)
